@@ -352,6 +352,9 @@ func (w *World) guard(f func()) Exec {
 	return ex
 }
 
+// GuardCall runs f under recover(), the watchdog and the allocation measurement.
+func (w *World) GuardCall(f func()) Exec { return w.guard(f) }
+
 func (w *World) execCount() int {
 	n := 0
 	for _, e := range w.Srv.MsgLog() {
